@@ -63,6 +63,10 @@ class C20(Prop):
             for r in range(min(n, 3) + 1):
                 rows = [w for j, w in enumerate(idm) if j % 2 == 1] + [w for j, w in enumerate(idm) if j % 2 == 0]
                 yield {"k": "staterepr", "rows": [w[:-1] + [2 * ((i + r) % 2)] for i, w in enumerate(rows)], "r": r}
+        for t in range(12):
+            n = 1 + t % 3
+            yield {"k": "tokenizelist", "ops": [[rng.randrange(4) for _ in range(n)] + [rng.randrange(4)] for _ in range(4)],
+                   "g": [1 + rng.randrange(3) for _ in range(n)] + [rng.choice((0, 2))]}
         for L in (1, 5, 50, 100, 101, 150):
             yield {"k": "listrepr", "ops": [[rng.randrange(4) for _ in range(3)] + [rng.randrange(4)] for _ in range(L)]}
         # registers across the 64-bit word boundary
@@ -153,6 +157,18 @@ class C20(Prop):
                         pre, rest = ln[:2], ln[2:]
                     lines.append({"pre": pre, "toks": text_tokens(rest)})
                 rec["lines"] = lines
+            elif k == "tokenizelist":
+                out = []
+                L = be.plist(scn["ops"])
+                for t in range(3):
+                    r_ = {"op": "tokenizelist", "ops": be.p_list(L), "live": t}
+                    r_["toks"] = [be.p_ints(row) for row in L.tokenize()]
+                    out.append(r_)
+                    if t == 0:
+                        L.rotate_by(be.pauli(scn["g"]))            # in place: the arrays stay, their content changes
+                    else:
+                        L.ps[0] = (L.ps[0] + 1) % 4
+                return out
             elif k == "listrepr":
                 rec["ops"] = scn["ops"]
                 rec["lines"] = [text_tokens(ln) for ln in repr(be.plist(scn["ops"])).split("\n")]
